@@ -17,6 +17,7 @@ import (
 	"github.com/valinurovam/garagemq/msgstorage"
 	"github.com/valinurovam/garagemq/queue"
 	"github.com/valinurovam/garagemq/srvstorage"
+	"github.com/valinurovam/garagemq/verifhook"
 )
 
 const exDefaultName = ""
@@ -89,21 +90,28 @@ func NewVhost(name string, system bool, msgStoragePersistent *msgstorage.MsgStor
 func (vhost *VirtualHost) handleAutoDeleteQueue() {
 	for queueName := range vhost.autoDeleteQueue {
 		//time.Sleep(5 * time.Second)
+		verifhook.Enter("vhost.autodelete")
 		vhost.DeleteQueue(queueName, false, false)
+		verifhook.Exit("vhost.autodelete")
+		verifhook.Taken("vhost.autodelete")
 	}
 }
 
 func (vhost *VirtualHost) handleConfirms() {
 	confirmsChan := vhost.msgStorageP.ReceiveConfirms()
 	for confirm := range confirmsChan {
+		verifhook.At("relay.beforeCanConfirm")
 		if !confirm.ConfirmMeta.CanConfirm() {
+			verifhook.Taken("store.relay")
 			continue
 		}
 		channel := vhost.srv.getConfirmChannel(confirm.ConfirmMeta)
 		if channel == nil {
+			verifhook.Taken("store.relay")
 			continue
 		}
 		channel.addConfirm(confirm.ConfirmMeta)
+		verifhook.Taken("store.relay")
 	}
 }
 
